@@ -54,3 +54,11 @@ Fixpoint vinplace (f : float -> float -> float) (a b : vec) : vec :=
 (* a[i] = v for an integer index inside the array *)
 Fixpoint np_setitem (i : nat) (v : float) (a : vec) : vec :=
   match a, i with [], _ => [] | _ :: r_, O => v :: r_ | h_ :: r_, S k_ => h_ :: np_setitem k_ v r_ end.
+
+(* X[-1], X[-2], ... on a deque of arrays (k = 0 is the newest entry) *)
+Definition nth_back (k : nat) (l : list vec) : vec := nth k (rev l) [].
+
+(* np.hstack([A, B]) for two matrices with n rows given by their columns: row i = the i-th components of the columns of A,
+   then those of the columns of B *)
+Definition hstack_cols (n : nat) (A B : list vec) : list vec :=
+  map (fun i_ => map (fun c_ => nth i_ c_ nan) A ++ map (fun c_ => nth i_ c_ nan) B) (seq 0 n).
